@@ -10,20 +10,31 @@ import (
 	"bytes"
 	"io"
 	"io/fs"
+	"os"
 	"path"
+	"path/filepath"
 	"sort"
+	"strings"
 	"testing/fstest"
 	"time"
 
 	"verif/internal/memfs"
 )
 
-var stores = []string{"map", "memfs", "openonly", "flat"}
+var stores = []string{"map", "memfs", "openonly", "flat", "sub", "dirfs", "dirfs-symlink"}
 
 // userFS is a content filesystem that can still be written to after markdown.New.
 type userFS interface {
 	fs.FS
 	put(name, content string)
+}
+
+// mutableFS can also remove files and stamps every change with a modification time of its own
+// (step counts the changes; later changes carry later times).
+type mutableFS interface {
+	userFS
+	del(name string)
+	tick()
 }
 
 type mapStore struct{ fstest.MapFS }
@@ -32,9 +43,14 @@ func (m mapStore) put(name, content string) {
 	m.MapFS[name] = &fstest.MapFile{Data: []byte(content), Mode: 0o644}
 }
 
-type memStore struct{ *memfs.FS }
+type memStore struct {
+	*memfs.FS
+	now time.Time
+}
 
-func (m memStore) put(name, content string) { m.FS.Write(name, content, time.Unix(1000, 0)) }
+func (m *memStore) put(name, content string) { m.FS.Write(name, content, m.now) }
+func (m *memStore) del(name string)          { m.FS.Remove(name) }
+func (m *memStore) tick()                    { m.now = m.now.Add(3 * time.Second) }
 
 // openOnly offers nothing but Open (no Stat / ReadDir / ReadFile methods); directories can be opened.
 type openOnly struct{ m fstest.MapFS }
@@ -84,16 +100,92 @@ func (i flatInfo) Sys() any           { return nil }
 
 var _ io.Reader = (*flatFile)(nil)
 
-func newStore(kind string) userFS {
+func newStore(kind string) (userFS, func()) {
+	none := func() {}
 	switch kind {
 	case "memfs":
-		return memStore{memfs.New()}
+		return &memStore{FS: memfs.New(), now: time.Unix(1_700_000_000, 0)}, none
 	case "openonly":
-		return openOnly{fstest.MapFS{}}
+		return openOnly{fstest.MapFS{}}, none
 	case "flat":
-		return flat{map[string]string{}}
+		return flat{map[string]string{}}, none
+	case "sub":
+		return newSubStore(), none
+	case "dirfs", "dirfs-symlink":
+		d, err := newDirStore(kind == "dirfs-symlink")
+		if err != nil {
+			panic("harness: cannot create a temporary directory: " + err.Error())
+		}
+		return d, func() { _ = os.RemoveAll(d.root) }
 	}
-	return mapStore{fstest.MapFS{}}
+	return mapStore{fstest.MapFS{}}, none
+}
+
+// subStore: the content filesystem is fs.Sub of a larger one.
+type subStore struct {
+	fs.FS
+	m fstest.MapFS
+}
+
+func newSubStore() subStore {
+	m := fstest.MapFS{"site/keep.txt": &fstest.MapFile{Data: []byte("x")}, "other/markdown/paragraph.vuego": &fstest.MapFile{Data: []byte("<p>WRONG</p>")}}
+	sub, err := fs.Sub(m, "site")
+	if err != nil {
+		panic(err)
+	}
+	return subStore{FS: sub, m: m}
+}
+func (s subStore) put(name, content string) {
+	s.m["site/"+name] = &fstest.MapFile{Data: []byte(content), Mode: 0o644}
+}
+
+// dirStore: a real directory below the system's temporary directory, served by os.DirFS. With
+// symlink set, every markdown/*.vuego is a symbolic link to a file kept elsewhere in the directory.
+type dirStore struct {
+	fs.FS
+	root    string
+	symlink bool
+	now     time.Time
+}
+
+func newDirStore(symlink bool) (*dirStore, error) {
+	root, err := os.MkdirTemp("", "verif-c20-")
+	if err != nil {
+		return nil, err
+	}
+	return &dirStore{FS: os.DirFS(root), root: root, symlink: symlink, now: time.Unix(1_700_000_000, 0)}, nil
+}
+
+func (d *dirStore) tick() { d.now = d.now.Add(3 * time.Second) }
+
+func (d *dirStore) put(name, content string) {
+	target := filepath.Join(d.root, filepath.FromSlash(name))
+	if d.symlink && strings.HasPrefix(name, "markdown/") {
+		real := filepath.Join(d.root, "real", path.Base(name))
+		_ = os.MkdirAll(filepath.Dir(real), 0o755)
+		_ = os.MkdirAll(filepath.Dir(target), 0o755)
+		if err := os.WriteFile(real, []byte(content), 0o644); err != nil {
+			panic(err)
+		}
+		_ = os.Chtimes(real, d.now, d.now)
+		_ = os.Remove(target)
+		if err := os.Symlink(filepath.Join("..", "real", path.Base(name)), target); err != nil {
+			panic(err)
+		}
+		return
+	}
+	_ = os.MkdirAll(filepath.Dir(target), 0o755)
+	if err := os.WriteFile(target, []byte(content), 0o644); err != nil {
+		panic(err)
+	}
+	_ = os.Chtimes(target, d.now, d.now)
+}
+
+func (d *dirStore) del(name string) {
+	_ = os.Remove(filepath.Join(d.root, filepath.FromSlash(name)))
+	if d.symlink {
+		_ = os.Remove(filepath.Join(d.root, "real", path.Base(name)))
+	}
 }
 
 func sortedKeys(m map[string]string) []string {
